@@ -50,7 +50,7 @@ impl Content {
 
 /// The round-trip monitor. `t` must already hold `content` (stored messages, after unescaping).
 pub fn check_roundtrip(c: &mut Case, name: &str, t: &TextArchive, content: &Content) {
-    let ser = match c.lib("TextArchive::serialize", || t.serialize()) {
+    let ser = match c.lib_stable("TextArchive::serialize", || t.serialize().map_err(|e| e.to_string())) {
         None => return,
         Some(Err(e)) => {
             // text the file's Shift-JIS parts (title, keys; messages of the legacy format) cannot
